@@ -1,8 +1,9 @@
-(* Extraction of the executable model for the correspondence run (ExtrOcamlBasic only). *)
+(* Extraction of the executable model for the correspondence run (ExtrOcamlBasic; ExtrOcamlNativeString for the form
+   names of the overload table: Coq strings become OCaml strings). *)
 From Coq Require Import ZArith.
 From Coq Require Extraction.
-From Coq Require Import ExtrOcamlBasic.
-From C02 Require Import Model.
+From Coq Require Import ExtrOcamlBasic ExtrOcamlNativeString.
+From C02 Require Import Model Table.
 Extraction Language OCaml.
 Cd "ocaml".
 Extraction "model.ml"
@@ -21,5 +22,8 @@ Extraction "model.ml"
   op_modeq_I op_modeq_ul op_modeq_l op_modeq_u op_modeq_i op_modeq_T
   op_mod_I op_mod_ul op_mod_l op_mod_u op_mod_i op_mod_us op_mod_Ts op_mod_Tf round53 op_mod_d op_mod_dx w_mod_I
   dom_div dom_divin dom_mod dom_modin dom_divmod dom_divexact dom_quo dom_quo_floor dom_rem
-  dom_quoin dom_remin dom_quoRem dom_isDivisor.
+  dom_quoin dom_remin dom_quoRem dom_isDivisor
+  forms form_rows
+  cast_i64_u64 cast_u64_i64 cast_i64_i32 cast_i64_i16 cast_abs64 cast_neg64 cast_i64_dbl cast_dbl_u64
+  cfg_sizeof_long cfg_limb_bits cfg_i64_min cfg_i64_max cfg_u64_max cfg_i32_min cfg_u32_max cfg_i16_min cfg_u16_max cfg_dbl_mant_dig.
 Cd "..".
